@@ -75,6 +75,15 @@ theorem lookup_none_of_not_mem {k : Key} {l : List (Key × α)} (h : k ∉ keys 
     simp only [keys, List.map_cons, List.mem_cons, not_or] at h
     simp [lookup, h.1]; exact ih h.2
 
+theorem lookup_isSome_iff {k : Key} {l : List (Key × α)} : (lookup k l).isSome = true ↔ k ∈ keys l := by
+  induction l with
+  | nil => simp [lookup, keys]
+  | cons q r ih =>
+    obtain ⟨k1, v1⟩ := q
+    by_cases hk : k = k1
+    · subst hk; simp [lookup, keys]
+    · simp only [lookup, hk, if_false, keys, List.map_cons, List.mem_cons, false_or] at ih ⊢; exact ih
+
 theorem lookup_mem {k : Key} {v : α} {l : List (Key × α)} (h : lookup k l = some v) : (k, v) ∈ l := by
   induction l with
   | nil => simp [lookup] at h
@@ -83,6 +92,54 @@ theorem lookup_mem {k : Key} {v : α} {l : List (Key × α)} (h : lookup k l = s
     by_cases hk : k = k1
     · subst hk; simp [lookup] at h; subst h; exact List.mem_cons_self
     · simp [lookup, hk] at h; exact List.mem_cons_of_mem _ (ih h)
+
+theorem keys_erase_mem {k x : Key} {l : List (Key × α)} : x ∈ keys (erase k l) ↔ x ≠ k ∧ x ∈ keys l := by
+  induction l with
+  | nil => simp [erase, keys]
+  | cons q r ih =>
+    obtain ⟨k1, v1⟩ := q
+    by_cases hk : k = k1
+    · subst hk
+      simp only [erase, if_true, keys, List.map_cons, List.mem_cons] at ih ⊢
+      rw [ih]; constructor
+      · rintro ⟨h1, h2⟩; exact ⟨h1, Or.inr h2⟩
+      · rintro ⟨h1, h2 | h2⟩
+        · exact absurd h2 h1
+        · exact ⟨h1, h2⟩
+    · simp only [erase, hk, if_false, keys, List.map_cons, List.mem_cons] at ih ⊢
+      rw [ih]; constructor
+      · rintro (h | ⟨h1, h2⟩)
+        · subst h; exact ⟨fun h => hk h.symm, Or.inl rfl⟩
+        · exact ⟨h1, Or.inr h2⟩
+      · rintro ⟨h1, h2 | h2⟩
+        · exact Or.inl h2
+        · exact Or.inr ⟨h1, h2⟩
+
+theorem keys_erase_nodup {k : Key} {l : List (Key × α)} (h : (keys l).Nodup) : (keys (erase k l)).Nodup := by
+  induction l with
+  | nil => simp [erase, keys]
+  | cons q r ih =>
+    obtain ⟨k1, v1⟩ := q
+    simp only [keys, List.map_cons, List.nodup_cons] at h
+    by_cases hk : k = k1
+    · simp only [erase, hk, if_true]; rw [← hk]; exact ih h.2
+    · simp only [erase, hk, if_false, keys, List.map_cons, List.nodup_cons]
+      exact ⟨fun hm => h.1 (keys_erase_mem.1 hm).2, ih h.2⟩
+
+theorem lookup_erase (k k' : Key) (l : List (Key × α)) :
+    lookup k (erase k' l) = if k = k' then none else lookup k l := by
+  induction l with
+  | nil => simp [erase, lookup]
+  | cons q r ih =>
+    obtain ⟨k1, v1⟩ := q
+    by_cases h1 : k' = k1
+    · subst h1
+      simp only [erase, if_true, ih, lookup]
+      by_cases hk : k = k' <;> simp [hk]
+    · simp only [erase, h1, if_false, lookup, ih]
+      by_cases hk : k = k'
+      · subst hk; simp [h1]
+      · simp [hk]
 
 /-- `over st main`: put every entry of `st` into `main` (later entries win) -/
 def over (st main : List (Key × α)) : List (Key × α) := st.foldl (fun m p => upsert p.1 p.2 m) main
@@ -436,7 +493,8 @@ theorem storePendingBatch_eq (a : StageArgs) (db : DB) :
       | .error e => .error e
       | .ok o => .ok { db with events := db.events ++ o.es, pendingId := some a.batchId,
                                pendingAccts := some o.pa, pendingOrders := some o.po,
-                               pendingSnap := some o.snap } := by
+                               pendingSnap := some o.snap,
+                               noRefs := db.noRefs.filter (fun k => !a.orders.contains k) } := by
   unfold storePendingBatch stageOut
   by_cases h1 : a.orders.length ≠ a.orderMods.length
   · rw [if_pos h1, if_pos h1]
@@ -567,7 +625,8 @@ theorem markBatchComplete_pending {db : DB} {st : Staged} (hp : HasPending db st
     markBatchCompleteTx db =
       .ok { db with accounts := over st.accts db.accounts, orders := over st.orders db.orders,
                     pendingId := none, pendingAccts := none, pendingOrders := none, pendingSnap := none,
-                    snaps := db.snaps ++ [st.snap], index := upsert st.id (db.snaps.length + 1) db.index } := by
+                    snaps := db.snaps ++ [st.snap], index := upsert st.id (db.snaps.length + 1) db.index,
+                    noRefs := db.noRefs ++ (keys st.orders).filter (fun k => (lookup k db.orders).isNone) } := by
   obtain ⟨h1, h2, h3, h4⟩ := hp
   unfold markBatchCompleteTx applyBatchUpdates
   simp only [h1, h2, applyAccts_ok hs, h3, applyOrders_eq]
@@ -615,6 +674,22 @@ theorem spendPendingClause_events {db d : DB} (h : spendPendingClause db = .ok d
   unfold spendPendingClause pendingBatchSnapshot at h
   cases h1 : db.pendingSnap with
   | none => simp only [h1] at h; injection h with h; subst h; rfl
-  | some s => simp only [h1] at h; exact markBatchComplete_events h
+  | some s =>
+    simp only [h1] at h
+    cases hr : snapReadable db s with
+    | true => simp only [hr, if_true] at h; exact markBatchComplete_events h
+    | false => simp [hr] at h
+
+/-- closed form of the spend clause: complete iff a batch is staged AND its snapshot is readable (all its
+orders still exist in the main bucket); `ErrNoOrder` when not readable; no-op when nothing is staged -/
+theorem spendPendingClause_eq (db : DB) :
+    spendPendingClause db =
+      match db.pendingSnap with
+      | none => .ok db
+      | some s => if snapReadable db s then markBatchCompleteTx db else .error .noOrder := by
+  unfold spendPendingClause pendingBatchSnapshot
+  cases db.pendingSnap with
+  | none => rfl
+  | some s => cases hr : snapReadable db s <;> simp [hr]
 
 end Pool.C06
